@@ -155,12 +155,20 @@ class _BadHandle(Exception):
 class Runner:
     """The datasets of ONE process on the cache directory `path`."""
 
-    def __init__(self, path, n, calls, base=0):
+    def __init__(self, path, n, calls, base=0, iter_mode=False):
         import lazy_dataset
         self.path = path
         self.calls = calls
         self.base = base       # handle ids consumed by earlier (dead) processes
         self.h = []
+        # iter_mode: an access to index i that continues a run 0, 1, 2, ... on
+        # the same handle is performed with next() on ONE open iterator over the
+        # dataset (CacheDataset.__iter__ is `for i in range(len): yield self[i]`,
+        # so the meaning is the same); any other access closes the iterator
+        # first (= the consumer breaks out of its loop).  This exercises
+        # "populate by iterating", "break", and a kill while an iteration is open.
+        self.iter_mode = iter_mode
+        self.its = {}          # handle -> [iterator, next index]
 
         def fn(x):
             calls[x] += 1
@@ -183,7 +191,24 @@ class Runner:
             elif kind == 'access':
                 import numpy as np
                 idx = np.int64(a['i']) if a['np'] else int(a['i'])
-                v = self._get(a['h'])[idx]
+                ds = self._get(a['h'])
+                v = None
+                if self.iter_mode and not a['np'] and idx >= 0:
+                    cur = self.its.get(a['h'])
+                    if cur is None and idx == 0:
+                        cur = self.its[a['h']] = [iter(ds), 0]
+                    if cur is not None and cur[1] == idx:
+                        try:
+                            v = next(cur[0])
+                            cur[1] += 1
+                        except StopIteration:
+                            self.its.pop(a['h'], None)
+                            v = None
+                    elif cur is not None:
+                        self.its.pop(a['h'])
+                        cur[0].close()          # the consumer breaks out of the loop
+                if v is None:
+                    v = ds[idx]
                 if (isinstance(v, tuple) and len(v) == 2
                         and all(type(t) is int for t in v)):
                     out['e'], out['c'] = v
@@ -194,6 +219,10 @@ class Runner:
                 self.h[-1] = self._get(a['h']).copy(freeze=True)
             elif kind == 'release':
                 self._get(a['h'])
+                cur = self.its.pop(a['h'], None)
+                if cur is not None:
+                    cur[0].close()
+                    del cur
                 self.h[a['h'] - self.base - 1] = None       # the only reference
                 gc.collect()
             else:
@@ -205,6 +234,9 @@ class Runner:
         return out
 
     def close(self):
+        for cur in self.its.values():
+            cur[0].close()
+        self.its = {}
         for i in range(len(self.h)):
             self.h[i] = None
         self.up = None
@@ -236,10 +268,16 @@ def _read_line(fd, buf, timeout):
     return json.loads(line)
 
 
-def _writer_child(path, n, calls, steps, handshake, r_go, w_res, base=0):
+def _iter_mode(hist):
+    """Deterministic choice (from the lifecycle itself) of how accesses are performed."""
+    import zlib
+    return zlib.crc32(json.dumps(hist, sort_keys=True).encode()) % 2 == 0
+
+
+def _writer_child(path, n, calls, steps, handshake, r_go, w_res, base=0, iter_mode=False):
     """Body of the forked writer process (never returns)."""
     try:
-        runner = Runner(path, n, calls, base)
+        runner = Runner(path, n, calls, base, iter_mode)
         for a in steps:
             if handshake and os.read(r_go, 1) != b'g':
                 os._exit(3)
@@ -253,7 +291,7 @@ def _writer_child(path, n, calls, steps, handshake, r_go, w_res, base=0):
         os._exit(4)
 
 
-def _killed_segment(path, n, calls, steps, base):
+def _killed_segment(path, n, calls, steps, base, iter_mode=False):
     """Run `steps` in a child process that owns the datasets; the child writes
     its result after each step and blocks until the parent lets it go on; after
     the last step it is SIGKILLed (= right after its last store, no __del__).
@@ -264,7 +302,7 @@ def _killed_segment(path, n, calls, steps, base):
     if pid == 0:
         os.close(w_go)
         os.close(r_res)
-        _writer_child(path, n, calls, steps, True, r_go, w_res, base)
+        _writer_child(path, n, calls, steps, True, r_go, w_res, base, iter_mode)
     os.close(r_go)
     os.close(w_res)
     obs = []
@@ -313,11 +351,12 @@ def execute(n, init, hist, path, calls=None, prepare=True, base=0):
             seg.append(a)
     if seg:
         segments.append((seg, False))
+    im = _iter_mode(hist)
     for steps, killed in segments:
         if killed:
-            obs += _killed_segment(path, n, calls, steps, base)
+            obs += _killed_segment(path, n, calls, steps, base, im)
         else:
-            runner = Runner(path, n, calls, base)
+            runner = Runner(path, n, calls, base, im)
             try:
                 for a in steps:
                     obs.append(_look(path, runner.step(a), calls))
